@@ -11,3 +11,14 @@ print("| seeded | change | needs to manifest | verdict of our check | signatures
 print("|---|---|---|---|---|---|")
 for r in rows:
     print("| " + " | ".join(x.replace("|", "/") for x in r) + " |")
+
+import sys
+if "--update" in sys.argv:
+    p = os.path.join(os.path.dirname(__file__), "..", "DESIGN.md")
+    s = open(p).read()
+    a = s.index("<!-- seedtable:begin")
+    a = s.index("\n", a) + 1
+    b = s.index("<!-- seedtable:end -->")
+    lines = ["| seeded | change | needs to manifest | verdict of our check | signatures | note |", "|---|---|---|---|---|---|"]
+    lines += ["| " + " | ".join(x.replace("|", "/") for x in r) + " |" for r in rows]
+    open(p, "w").write(s[:a] + "\n".join(lines) + "\n" + s[b:])
